@@ -320,6 +320,23 @@ def gen_scenarios(ctx: Ctx):
                     and not (d["path"][0][1] == "metadata" and (len(d["path"]) == 1 or d["path"][1][1] in ("name", "namespace")))]
             if devs:
                 initial = rng.choice(devs)[1]
+        if bi % 3 == 0 and owned:
+            # c. the target is met but the parent's owner reference is missing
+            met = B.decorate(rng, target, B.strip(target))
+            met.setdefault("metadata", {}).update({"name": B.NAME, "namespace": B.NS})
+            met["metadata"].pop(B.OWNERS, None)
+            yield {"kind": "scenario", "body": body, "create_overlay": None,
+                   "policy": ["never", "patch", "recreate"][(bi // 3) % 3], "delay": delay, "owned": True,
+                   "initial": met, "decorate_seed": None, "passes": 3}
+        if bi % 3 == 1 and B.L not in json.dumps(body):
+            # d. an adopted object: meets the target (and is owner-reffed) but was never annotated by koreo
+            met = B.decorate(rng, target, B.strip(target))
+            met.setdefault("metadata", {}).update({"name": B.NAME, "namespace": B.NS})
+            met["metadata"][B.OWNERS] = [dict(B.OWNER_REF)]
+            met["status"] = {"ready": True}
+            yield {"kind": "scenario", "body": body, "create_overlay": None,
+                   "policy": ["patch", "recreate", "never", "default"][(bi // 3) % 4], "delay": delay, "owned": owned,
+                   "initial": met, "decorate_seed": None, "passes": 2, "expect_met_first": True}
         if not isinstance(initial, dict):
             continue
         initial.setdefault("metadata", {})
